@@ -596,6 +596,23 @@ def gen_c17_extra(ctx, thorough):
                  {"op": "slpark"}, {"op": "wait", "ms": 230}, {"op": "hdr", "sid": 1, "fields": [["x-trailer", "t"]], "es": True, "pad": -1},
                  {"op": "slrelease"}, {"op": "wait", "ms": 400}, finish(1, n=2), {"op": "close"}]
         out.append({'tag': 'idle-race', 'cfg': {'maxConc': 4, 'idleMs': 150}, 'steps': steps})
+    # the stream loop held inside a step hook (stream 3 just published / accepted / refused, or parked before its select)
+    # while something else happens to the connection; then released.  No panic, no wedge, every reaction within the oracle.
+    events = {
+        'peer-rst': [{"op": "rst", "sid": 3, "code": 8}],
+        'peer-data': [{"op": "data", "sid": 3, "n": 5, "es": True, "pad": -1}],
+        'handler-done': [finish(1, n=3)],
+        'bad-frame': [{"op": "wu", "sid": 0, "inc": 0}],
+        'ping-settings': [{"op": "ping", "n": 7}, {"op": "settings", "pairs": [[4, 70000]]}],
+        'peer-gone': [{"op": "close"}],
+    }
+    for ev in ('sl.publish', 'sl.accept'):
+        for name, evsteps in events.items():
+            third = [{"op": "hdr", "sid": 3, "fields": hdrs(3, "POST"), "es": False, "pad": -1}] if name == 'peer-data' else req(3)
+            steps = req(1) + [{"op": "hold", "ev": ev, "sid": 3}] + third + [dict(e) for e in evsteps] + [{"op": "slrelease"}]
+            if name != 'peer-gone':
+                steps += ([finish(1, n=3)] if name != 'handler-done' else []) + [finish(3, n=2)] + req(5) + [finish(5, n=1), {"op": "close"}]
+            out.append({'tag': 'hold-' + name, 'cfg': {'maxConc': 4}, 'steps': steps})
     # more handlers running than the completion queue holds when the peer disconnects
     for nh in (140, 200):
         steps = []
